@@ -97,10 +97,12 @@ Print Assumptions C07_jac_column_algebra.
    Then for every x: the chain is defined, the translation column that mj_comPos + mj_jac compute from the
    (xanchor, xaxis) written by mj_kinematics1 (for any com) is d pointAt / dx (Coquelicot is_derive, per
    component), and the rotation column w satisfies d (xmat u) / dx = w x (xmat u) for every u.
-   Missing for the full statement: (a) that the frame of a body of a GENERAL tree equals chainFK along its
-   ancestor path is true by construction of the model (bodyStart = CChild, jointsLoop = CJoint steps,
-   finishBody = CFinish) but is not proved as a theorem; (b) ball and free joints as the differentiated joint;
-   (c) mocap ancestors. *)
+   Missing for the full statement: (a) C07_tree_body_is_chain below shows that in a GENERAL tree the frame of
+   every regular body is exactly such a chain segment (child offset, its joints, end of body) applied to its
+   parent's frame, so the path from a joint to any descendant is a chain; what is not proved is the statement
+   about the tree as a function of one coordinate (that changing the coordinate of joint j leaves the state
+   before j and all non-descendants unchanged and composes the segments); (b) ball and free joints as the
+   differentiated joint; (c) mocap ancestors. *)
 Theorem C07_jac_column_partial :
   forall (j : joint R) (st : vec3 R * quat R) (cs : list (@cstep R)) (loc com : vec3 R) (x : R),
     (j_type j = JHinge /\ unitv (j_axis j)) \/ j_type j = JSlide ->
@@ -111,6 +113,22 @@ Theorem C07_jac_column_partial :
     (forall u : vec3 R, is_derive3 (dirAt j st cs u) x (cross (snd col) (dirAt j st cs u x))).
 Proof. exact jac_column. Qed.
 Print Assumptions C07_jac_column_partial.
+
+(* ---- trees and chains: for ANY tree on which the recursion is defined, the frame of every body that is neither
+   free-floating nor mocap and whose parent is not the world is obtained from the frame of its parent by the chain
+   CChild body_pos body_quat :: its joints :: CFinish, i.e. by the steps over which C07_jac_column_partial
+   quantifies (body k+1 of the tree is the k-th entry of bs; frames are indexed by body id) *)
+Theorem C07_tree_body_is_chain :
+  forall (bs : list (body R)) (frs : list (frame R)) (jas : list (list (janchor R))) (k : nat) (b : body R),
+    kinematics bs = Some (frs, jas) -> nth_error bs k = Some b ->
+    freeJoint (b_joints b) = None -> b_mocap b = None -> b_parent b <> O -> (b_parent b < S k)%nat ->
+    exists (pp xpos : vec3 R) (pq xquat : quat R),
+      nth_error frs (b_parent b) = Some (pp, pq, quat2Mat pq) /\
+      nth_error frs (S k) = Some (xpos, xquat, quat2Mat xquat) /\
+      chainFK (CChild (b_pos b) (b_quat b) :: map (@CJoint R) (b_joints b) ++ CFinish :: nil) (pp, pq) =
+        Some (xpos, xquat).
+Proof. exact tree_body_chain. Qed.
+Print Assumptions C07_tree_body_is_chain.
 
 (* ---- the hypotheses are satisfiable by non-trivial data *)
 Example C07_goodQV_example :
